@@ -222,8 +222,14 @@ func loopRangesOverField(header *ssa.BasicBlock, typ, field string) bool {
 	check := func(b *ssa.BasicBlock) bool {
 		for _, in := range b.Instrs {
 			if call, ok := in.(*ssa.Call); ok {
-				if bi, ok := call.Common().Value.(*ssa.Builtin); ok && bi.Name() == "len" && an.MentionsField(call.Common().Args[0], typ, field) {
-					return true
+				if bi, ok := call.Common().Value.(*ssa.Builtin); ok && bi.Name() == "len" {
+					a := call.Common().Args[0]
+					if an.LoadedField(a, typ, field) {
+						return true
+					}
+					if t, f, _, ok := an.FieldOf(a); ok && t == typ && f == field {
+						return true
+					}
 				}
 			}
 		}
